@@ -54,7 +54,7 @@ HALF == 33554432          \* 2^25 = 1/2
 AbsI(x) == IF x < 0 THEN -x ELSE x
 SumSeq(s) == FoldLeft(LAMBDA a, b : a + b, 0, s)
 RECURSIVE GCDI(_, _)
-GCDI(a, b) == IF b = 0 THEN AbsI(a) ELSE GCDI(b, a % b)
+GCDI(a, b) == IF b = 0 THEN AbsI(a) ELSE GCDI(AbsI(b), AbsI(a) % AbsI(b))
 
 (* ======================= PART 1: lattice networks ======================= *)
 Zero3 == <<0, 0, 0>>
